@@ -117,7 +117,7 @@ def _col(arow, srow, c):
 def doc_level(ctx: Ctx, cs):
     import kernpy as kp
     doc, pname = make_doc(cs, ['kern_only', 'default', 'splitty', 'kern_only'][cs % 4], types=('**kern', '**kern', '**text', '**dynam'),
-                          p_midsig=0.2, p_sig=1.0, allow_nodur=False,
+                          p_midsig=0.2, p_sig=1.0, allow_nodur=True,
                           # a fifth of the documents have '@' / '·' inside lyrics and comments (how the kern export treats them is C03's
                           # business; here only: the agnostic export treats them the same way)
                           separator_text=0.3 if cs % 5 == 2 else 0.0)
